@@ -105,6 +105,30 @@ theorem fire_submits_all (h : Hyp cfg rank) (hs : StartOK cfg (den cfg P rank) s
     obtain ⟨hB, _⟩ := hstarved rfl
     refine ⟨by simpa using hB.nodup, fun k => by simpa using hB.running k, hB.pendNonempty⟩
 
+/-! ## full statements: the start state is the one `start_state_from_dask` builds (no `StartOK` hypothesis) -/
+section Full
+variable (h : Hyp cfg rank) (hG : GraphOK cfg.g cfg.results) (hst : startState cfg P = .ok st0)
+include h hG hst
+
+theorem run_at_most_once_full (choices : List Nat) (s' : Sys α) (o : Outcome)
+    (hrun : mainLoop cfg P choices (sys0 st0) = .ok (s', o)) : (preKeys s'.log).Nodup :=
+  run_at_most_once h (C01.startOK_of_eq h hG hst) choices s' o hrun
+
+theorem run_exactly_once_on_success_full (choices : List Nat) (s' : Sys α)
+    (hrun : mainLoop cfg P choices (sys0 st0) = .ok (s', .done)) :
+    (∀ k, k ∈ preKeys s'.log ↔ (st0.seen k ∧ isTask cfg.g k)) ∧
+    (∀ k, k ∈ postKeys s'.log ↔ (st0.seen k ∧ isTask cfg.g k)) ∧
+    (preKeys s'.log).Nodup ∧ (postKeys s'.log).Nodup :=
+  run_exactly_once_on_success h (C01.startOK_of_eq h hG hst) choices s' hrun
+
+theorem deps_finished_before_start_full (choices : List Nat) (s' : Sys α) (o : Outcome)
+    (hrun : mainLoop cfg P choices (sys0 st0) = .ok (s', o))
+    (e : Ev × State α) (he : e ∈ s'.log) (k : Key) (hk : e.1 = Ev.pretask k) (d : Key) (hd : d ∈ e.2.depsOf k) :
+    e.2.cache.get? d = some (den cfg P rank d) ∧ (isData cfg.g d ∨ d ∈ e.2.finished) :=
+  deps_finished_before_start h (C01.startOK_of_eq h hG hst) choices s' o hrun e he k hk d hd
+
+end Full
+
 /-! non-vacuity: on the diamond of C01 both middle tasks and the join run once -/
 example : preKeys (getAsync (C01.exCfg 1) C01.exP [1, 0, 0]).log = [1, 2, 3] := by decide
 example : postKeys (getAsync (C01.exCfg 1) C01.exP [1, 0, 0]).log = [2, 1, 3] := by decide
